@@ -66,7 +66,7 @@ func deepCopySchemaDefinition(def *SchemaDefinition) *SchemaDefinition {
 	if def.AdditionalTypes != nil {
 		ret.AdditionalTypes = make([]NamedType, len(def.AdditionalTypes))
 		for i, v := range def.AdditionalTypes {
-			ret.AdditionalTypes[i] = newNamedTypes[v.TypeName()]
+			ret.AdditionalTypes[i] = fixTypePointer(v, newNamedTypes).(NamedType)
 		}
 	}
 
